@@ -405,7 +405,8 @@ class Gen:
         if k == 'printf':
             fmt, args, names = self.format_string(nested_ok, bad_types=bad_types)
             src = 'printf "%s"' % fmt + ''.join(' ' + a['src'] for a in args)
-            return {'k': 'printf', 'fmt': fmt, 'args': args, 'names': names, 'src': src}
+            return {'k': 'printf', 'fmt': fmt, 'args': args, 'names': names, 'src': src,
+                    'expect_env': {n: (self.regs[n] if n in self.regs else self.vars.get(n)) for n in names}}
         if k == 'dev':
             cmd = rng.choice(sorted(DEV_CODES))
             return {'k': 'dev', 'dev': DEV_CODES[cmd], 'src': cmd}
@@ -485,6 +486,9 @@ def corpus():
         [fixed_job([], [st_print(lit('hello'))])],
         [fixed_job([], [st_print(lit(1))]), fixed_job([], [st_print(lit(2))])],
         [fixed_job([], [st_print(lit(1)), st_dev('on all'), st_print(lit(2)), st_dev('set all'), st_println(lit(3)), st_dev('off all')])],
+        [fixed_job(['define shoutln with p begin println p return {p + 1} end'],
+                   [st_printf('{}{}', [lit(1), {'src': '[shoutln 9]', 'expect': 10,
+                                                  'pre': [{'k': 'println', 'v': {'src': 'p', 'expect': 9, 'pre': []}}]}])])],
         [fixed_job([shout], [st_printf('{} {}', [lit(1), nested])])],
         [fixed_job([shout], [st_print(nested)])],
         [fixed_job([], [st_print(lit(1)), st_printf('{:d}', [lit(2.5)])]), fixed_job([], [st_print(lit(3))])],
@@ -817,7 +821,7 @@ def py_parse_case(fmt):
 def py_format_case(fmt, args, kw):
     try:
         return 'O' + show_str(fmt.format(*args, **kw))
-    except (ValueError, TypeError, IndexError, KeyError):
+    except (ValueError, TypeError, IndexError, KeyError, AttributeError):
         return 'E'
 
 
@@ -1108,7 +1112,7 @@ def shrink(ctx, model_ok):
             sub.extra = {}
             found = None
             try:
-                status = check_cases(sub, cands, False, tag='c19k')
+                status = check_cases(sub, cands, model_ok, tag='c19k')
             except Exception:
                 break
             sigs = {}
